@@ -1,6 +1,7 @@
 package harness
 
 import (
+	"os"
 	"bytes"
 	"fmt"
 	"sort"
@@ -263,6 +264,8 @@ func (r *Runner) errOK(err error, what string) bool {
 	return false
 }
 
+var debugOps = os.Getenv("VERIF_DEBUG_OPS") != ""
+
 // Apply executes one operation. Returns false if the operation was not
 // applicable in the current state (it is skipped then).
 func (r *Runner) Apply(op Op) bool {
@@ -275,6 +278,12 @@ func (r *Runner) Apply(op Op) bool {
 	// record first, so that an operation that panics is part of the history
 	r.Ops = append(r.Ops, op)
 	ok := r.apply(op)
+	if debugOps {
+		if f, err := os.OpenFile(os.Getenv("VERIF_DEBUG_OPS"), os.O_APPEND|os.O_CREATE|os.O_WRONLY, 0o644); err == nil {
+			fmt.Fprintf(f, "OP %v applied=%v log=%d lastEnd=%s steps=%d\n", op, ok, len(r.D.Log), r.LastEnd, r.E.S.Steps())
+			f.Close()
+		}
+	}
 	if !ok {
 		r.Ops = r.Ops[:len(r.Ops)-1]
 	}
